@@ -23,6 +23,7 @@ def ev(**extra):
 # =============================================================================================
 M("C01", "M01-1-save_metas", dict(
     root=r"^indexer::segment_updater::save_metas$", depth=1, unroll=2, inline=[],
+    native=[("between", "atomic_write:meta.json", "sync_directory"), ("fault", "sync_directory", ["atomic_write:meta.json"])],
     events=ev(),
     checks=[("precedes_ok", "sync", "meta_write"),
             ("not_after_fail", "sync", "meta_write"),
@@ -143,6 +144,8 @@ EV_READER = {
 }
 M("C05", "M05-1-reader-lock-window", dict(
     root=r"^reader::" + I + r"::open_segment_readers$", depth=1, unroll=2, inline=[],
+    native=[("on_thread_window", "acquire_lock:.tantivy-meta.lock", "release_lock:.tantivy-meta.lock",
+             ["open_read:.term", "open_read:.idx", "open_read:.pos", "open_read:.store", "open_read:.fast"], "main")],
     events=EV_READER,
     checks=[("held_during", "lock", ["release", "release_move"], ["read_meta", "open"]),
             ("not_after_fail", "lock", "read_meta"), ("not_after_fail", "lock", "open"),
